@@ -1263,40 +1263,6 @@ func varlen(k *mon.Case) {
 }
 
 // ---------------------------------------------------------------------------------------
-// SetSubtreeHeight(4): exploration only, never a C10 verdict (the engine only uses 8)
-
-func subtree4(k *mon.Case) {
-	r := k.R
-	L := 32
-	pool := genPool(r, L, shapes[r.Intn(len(shapes))], 1+r.Intn(40))
-	model := map[string][]byte{}
-	var b batch
-	for _, key := range pool {
-		v := randBytes(r, 32)
-		b.keys = append(b.keys, key)
-		b.values = append(b.values, v)
-		model[string(key)] = v
-	}
-	d, _ := db.NewInMemoryDB()
-	defer d.Close()
-	t := smt.NewTrie(nil, L)
-	t.SetSubtreeHeight(4)
-	var got []byte
-	var err error
-	pn, _, _ := guard(func() { got, err = t.Update(d, b.keys, b.values) })
-	switch {
-	case pn:
-		k.Count("subtree_height_4(no verdict):panic", 1)
-	case err != nil:
-		k.Count("subtree_height_4(no verdict):error", 1)
-	case bytes.Equal(got, ref39.Root(model)):
-		k.Count("subtree_height_4(no verdict):root_ok", 1)
-	default:
-		k.Count("subtree_height_4(no verdict):root_differs", 1)
-	}
-}
-
-// ---------------------------------------------------------------------------------------
 // reference against the fixtures (no lisk-engine code)
 
 func repoDir() string {
@@ -1363,7 +1329,7 @@ func main() {
 			"values are 32 bytes except in stream varlen (stored subtrees encode 32-byte values; the engine stores hashes in the state tree and uses variable length only for one batch on an empty trie)",
 			"no duplicate keys inside one batch (the statement does not say which wins)",
 			"a panic of Verify on a tampered proof is counted here and belongs to C09; rejection of a tampered proof is never a violation",
-			"SetSubtreeHeight(4) is explored and counted only",
+			"SetSubtreeHeight(4) is not exercised: the engine never calls it and getBinIndex panics inside an updateNode goroutine (process-fatal, index out of range) for it",
 		},
 		RacePkgs: []string{"trie/smt", "db"},
 	}, func(c *mon.Ctx) {
@@ -1388,6 +1354,5 @@ func main() {
 			history(c, k, L, shape, poolN, 4, poolN, 4, 24)
 		})
 		c.Cases("varlen", c.N(320, 8000), varlen)
-		c.Cases("subtree4", c.N(32, 200), subtree4)
 	})
 }
